@@ -86,7 +86,23 @@ def controller_state(conn, ex):
             "unit": ex.allocated_virtual(conn.app_id) if conn.app_id in ex._qubit_unit_modules else None}
 
 
-BUILD_KINDS = ("new", "gate", "rot", "gate2", "meas", "array")
+BUILD_KINDS = ("new", "gate", "rot", "gate2", "meas", "array", "loop", "if")
+
+# Template names are arbitrary strings.  Adversarial vocabulary: the branch labels the builder
+# generates (with the numbered variants of the label manager), register-, address- and
+# macro-like names, mnemonics, digits, blanks.
+NAMES = ["LOOP", "LOOP_EXIT", "LOOP1", "LOOP_EXIT1", "LOOP2", "LOOP_EXIT2", "IF_EXIT", "IF_EXIT1",
+         "IF_EXIT2", "WHILE", "WHILE_EXIT", "WHILE1", "R0", "R1", "R15", "Q0", "M0", "C3", "@0", "@1[0]",
+         "$x", "$1", "rot_x", "set", "jmp", "ret_arr", "0", "7", "a", "b0", "a b", " ", "Template", "name"]
+
+
+def pick_name(rng, tcount, taken):
+    """a fresh template name: mostly adversarial, sometimes a plain t<k>"""
+    if rng.random() < 0.7:
+        cand = [n for n in NAMES if n not in taken]
+        if cand:
+            return rng.choice(cand)
+    return "t%d" % tcount
 
 
 def segs_to_events(segs):
@@ -185,6 +201,16 @@ def run_flow(prog, flow, outcomes):
                                                     store_array=(st["mode"] == "array")))
         elif k == "array":
             conn.new_array(st["len"])
+        elif k == "loop":
+            # with conn.loop(count): <gates / rotations>  (labels LOOP, LOOP_EXIT, LOOP1, …)
+            with conn.loop(st["count"]):
+                for b in st["steps"]:
+                    do_build(b, vals)
+        elif k == "if":
+            # with <earlier outcome>.if_eq(v): <gates / rotations>  (label IF_EXIT, IF_EXIT1, …)
+            with futures[st["f"]].if_eq(st["v"]):
+                for b in st["steps"]:
+                    do_build(b, vals)
     try:
         for i, st in enumerate(events):
             k = st["k"]
@@ -313,6 +339,8 @@ def random_program(rng, thorough=False):
     alive = []  # per handle
     events = []
     tcount = 0
+    arr_futs = []  # indices (among all measurement futures) of those stored in arrays
+    nmeas = 0
     outstanding = 0
     interleave = rng.random() < 0.6  # build operations between compile and commit
     for _ in range(rng.randint(1, 5)):
@@ -331,7 +359,7 @@ def random_program(rng, thorough=False):
                     if names and rng.random() < 0.2:
                         name = rng.choice(names)
                     elif rng.random() < 0.85:
-                        name = "t%d" % tcount
+                        name = pick_name(rng, tcount, names)
                         tcount += 1
                         names.append(name)
                     else:
@@ -371,9 +399,34 @@ def random_program(rng, thorough=False):
                 ch += ["gate", "rot", "rot", "rot", "meas", "meas"]
             if len(lv) >= 2 and not cfg["transp"]:
                 ch += ["gate2"]
+            if lv:
+                ch += ["loop", "loop"] + (["if", "if"] if arr_futs else [])
             k = rng.choice(ch)
             nbuilt += 1
-            if k == "new":
+            if k in ("loop", "if"):
+                # gates and (templated) rotations inside a loop / a conditional block
+                steps = []
+                for _ in range(rng.randint(1, 3)):
+                    if rng.random() < 0.3:
+                        steps.append({"k": "gate", "h": rng.choice(lv), "g": rng.randrange(7)})
+                        continue
+                    if pre and rng.random() < 0.8:
+                        if vals and rng.random() < 0.2:
+                            name = rng.choice(sorted(vals))
+                        else:
+                            name = pick_name(rng, tcount, vals)
+                            tcount += 1
+                            vals[name] = rng.choice([0, 1, 255, 16, rng.randrange(256)])
+                        n = {"t": name}
+                    else:
+                        n = rng.randrange(256)
+                    steps.append({"k": "rot", "h": rng.choice(lv), "axis": rng.choice("XYZ"), "n": n,
+                                  "d": rng.randrange(0, 8)})
+                if k == "loop":
+                    events.append({"k": "loop", "count": rng.randint(1, 3), "steps": steps})
+                else:
+                    events.append({"k": "if", "f": rng.choice(arr_futs), "v": rng.randrange(2), "steps": steps})
+            elif k == "new":
                 events.append({"k": "new"})
                 alive.append(True)
             elif k == "gate":
@@ -383,7 +436,7 @@ def random_program(rng, thorough=False):
                     if vals and rng.random() < 0.2:
                         name = rng.choice(sorted(vals))
                     else:
-                        name = "t%d" % tcount
+                        name = pick_name(rng, tcount, vals)
                         tcount += 1
                         vals[name] = rng.choice([0, 1, 255, 16, rng.randrange(256)])
                     n = {"t": name}
@@ -403,6 +456,9 @@ def random_program(rng, thorough=False):
                         mode = "array"
                 ip = rng.random() < 0.25
                 events.append({"k": "meas", "h": h, "mode": mode, "inplace": ip})
+                if mode == "array":
+                    arr_futs.append(nmeas)
+                nmeas += 1
                 if not ip:
                     alive[h] = False
             elif k == "array":
